@@ -84,8 +84,14 @@ func vc05WriteRead(teletext bool) {
 	if dsc == "0" {
 		maxRows = 10
 	}
-	s.Metadata = &Metadata{Framerate: fr, STLDisplayStandardCode: dsc, Title: "Prog", STLOriginalEpisodeTitle: "Ep", STLTranslatorName: "Tr", STLPublisher: "Pub",
-		STLCountryOfOrigin: "FRA", Language: LanguageFrench, STLRevisionNumber: 3, STLMaximumNumberOfDisplayableRows: vintp(maxRows), STLSubtitleListReferenceCode: "ref"}
+	// GSI text fields: short values, or values that fill their field to the last byte (32 resp. 16 characters)
+	mTitle, mEp, mTr, mPub, mRef := "Prog", "Ep", "Tr", "Pub", "ref"
+	if k%4 == 3 {
+		full := "ABCDEFGHIJKLMNOPQRSTUVWXYZ012345"
+		mTitle, mEp, mTr, mPub, mRef = full, "e"+full[1:], "t"+full[1:], "p"+full[1:], full[:16]
+	}
+	s.Metadata = &Metadata{Framerate: fr, STLDisplayStandardCode: dsc, Title: mTitle, STLOriginalEpisodeTitle: mEp, STLTranslatorName: mTr, STLPublisher: mPub,
+		STLCountryOfOrigin: "FRA", Language: LanguageFrench, STLRevisionNumber: 3, STLMaximumNumberOfDisplayableRows: vintp(maxRows), STLSubtitleListReferenceCode: mRef}
 	type cueM struct {
 		st, en time.Duration
 		just   Justification
@@ -157,8 +163,8 @@ func vc05WriteRead(teletext bool) {
 	}
 	vassert(len(r.Items) == n, "C05 write->read: same number of cues")
 	md := r.Metadata
-	vassert(md != nil && md.Framerate == fr && md.STLDisplayStandardCode == dsc && md.Title == "Prog" && md.STLOriginalEpisodeTitle == "Ep" && md.STLTranslatorName == "Tr" &&
-		md.STLPublisher == "Pub" && md.STLCountryOfOrigin == "FRA" && md.Language == LanguageFrench && md.STLRevisionNumber == 3 && md.STLSubtitleListReferenceCode == "ref" &&
+	vassert(md != nil && md.Framerate == fr && md.STLDisplayStandardCode == dsc && md.Title == mTitle && md.STLOriginalEpisodeTitle == mEp && md.STLTranslatorName == mTr &&
+		md.STLPublisher == mPub && md.STLCountryOfOrigin == "FRA" && md.Language == LanguageFrench && md.STLRevisionNumber == 3 && md.STLSubtitleListReferenceCode == mRef &&
 		md.STLMaximumNumberOfDisplayableRows != nil && *md.STLMaximumNumberOfDisplayableRows == maxRows, "C05 write->read: GSI metadata")
 	for c, m := range model {
 		if c >= len(r.Items) {
